@@ -1808,11 +1808,8 @@ def evaluate__round(self: XPathFunction, context: ta.ContextType = None) \
 
     precision: int = self.get_argument(context, index=1, default=0, cls=int)
     try:
-        if precision < 0:
-            return type(arg)(round(arg, precision))  # type: ignore[call-overload, arg-type]
-
         number = decimal.Decimal(arg)
-        exponent = decimal.Decimal('1') / 10 ** precision
+        exponent = decimal.Decimal(1).scaleb(-precision)
         if number > 0:
             return type(arg)(number.quantize(exponent, rounding='ROUND_HALF_UP'))
         else:
